@@ -733,9 +733,15 @@ bool WPA2Decrypter::decrypt(PDU& pdu) {
         Dot11Data* data = pdu.find_pdu<Dot11Data>();
         RawPDU* raw = pdu.find_pdu<RawPDU>();
         if (data && raw && data->wep()) {
+            // The pairwise keys belong to the frame's (receiver, transmitter) pair: try 
+            // it first. Decryption works in place, so trying the keys of another 
+            // station (e.g. the original source of a frame relayed by the AP) first 
+            // would garble the payload.
+            keys_map::const_iterator it = keys_.find(make_addr_pair(data->addr1(), data->addr2()));
             // search for the tuple (bssid, src_addr)
-            keys_map::const_iterator it = keys_.find(extract_addr_pair(*data));
-            
+            if (it == keys_.end()) {
+                it = keys_.find(extract_addr_pair(*data));
+            }
             // search for the tuple (bssid, dst_addr) if the above didn't work
             if (it == keys_.end()) {
                 it = keys_.find(extract_addr_pair_dst(*data));
